@@ -36,9 +36,9 @@ CLAIMS = {
                 note="Longest-prefix / remainder / split-invariance as behaviours rest on winnow's checkpoint contract (trusted); decided: the grammar widths, constants, totality and order.",
                 technique="grammar reconstruction from MIR + width/constant analysis"),
     "C08": dict(level="other", design="§5 C08",
-                text="Literal-table checks on the typed constants (uniqueness, permutations, cross-table membership, device_id = le32(mac[0..4])); run-number dispatch tables of every map/calibration function (simulation cell = cell of run 5000, no gap, no shadowed arm, below-first-map => error); bank-name grammar atoms; wire/pad index arithmetic constants; the (chip, channel) -> (pad column, pad row) table built by the INV_PADS_0 loop nest is total, injective and onto 4 x 72 (path formulas of the loop body evaluated over the finite iteration domain).",
+                text="Literal-table checks on the typed constants (uniqueness, permutations, cross-table membership, device_id = le32(mac[0..4])); run-number dispatch tables of every map/calibration function (simulation cell = cell of run 5000, no gap, no shadowed arm, below-first-map => error); bank-name grammar atoms; wire/pad index arithmetic constants; the (chip, channel) -> (pad column, pad row) table built by the INV_PADS_0 loop nest is total, injective and onto 4 x 72 (path formulas of the loop body evaluated over the finite iteration domain); equality / hashing / ordering impls of the detector crate's identity types are derived or call only comparison and hashing on their fields.",
                 note="Numerical phi/z values of the position accessors and the physical correctness of table entries / run-number thresholds are not decided.",
-                technique="constant-table analysis + dispatch-partition analysis of switchInt/compare chains + guard atoms"),
+                technique="constant-table analysis + dispatch-partition analysis of switchInt/compare chains + guard atoms; callee census of the identity types' Eq/Hash/Ord impls"),
     "C09": dict(level="proof", design="§5 C09",
                 text="Event assembly (MainEvent::try_from_banks, timestamp and the physics functions they reach): every MIR Assert, panicking std call, explicit panic and loop is discharged as in C01, using constructor-census type invariants and three audited implications (Some-unless-empty, member lookup, table values); detector callees are delegated to C01 (inputs unconstrained there). Reconstruction kernels (avalanches, vertex): the same obligations are collected; the kernel functions that are fully discharged today (committed list) must stay fully discharged; for the others the undischarged integer/index/unwrap sites are counted per function and class on the pinned tree and a count above the committed census is reported (a discharged site stays discharged); the pad centroid is only computed for a strict local maximum (no ln(1)=0 in the denominator, hence no NaN z reaching DriftTables::at); result discipline of try_from_banks.",
                 note="Proof level holds for event assembly only. In the kernels the float pipeline (Cholesky/argmin unwraps, partial_cmp, NaN asserts) is a census of undecided sites, and 63 integer/index sites in 19 kernel functions (loop-carried indices, table-shape dependent lookups, values flowing through local collections) are undecided by this analysis: no panic-freedom claim is made for avalanches()/vertex().",
